@@ -349,6 +349,11 @@ def gen_plan(j, rng):
            "device_id": rng.getrandbits(48), "cred_form": rng.choice(["hex", "bytes"]),
            "backpressure": rng.random() < 0.2}
     if rng.random() < 0.15:
+        # the host lives in a zone whose daylight-saving time ends (or starts) during the history
+        back = rng.random() < 0.7
+        cfg["tz"] = {"switch_at": rng.choice([600.0, 3600.0 * 3, 3600.0 * 11, 3600.0 * 12.5, 3600.0 * 20]),
+                     "before": 7200 if back else 3600, "after": 3600 if back else 7200}
+    if rng.random() < 0.15:
         # another V3 (or V2) device with its own key and client object lives in the same process
         cfg["bystander"] = {"version": rng.choice([3, 3, 2]), "period": rng.choice([0.11, 0.7, 1.3]), "max_rounds": 25}
     return {"config": cfg, "ops": ops}
